@@ -218,28 +218,50 @@ def rule_role_mapping(ctx):
     ctx.rule("C12.3-role-mapping")
     an = get_analysis(ctx)
     pm = ctx.program.module(MODS["deflate"]).classes["PerMessageDeflate"]
-    for fname, ctor, own_when_server in (("start_compress_message", "zlib.compressobj", "server"), ("start_decompress_message", "zlib.decompressobj", "client")):
+    # cell-wise over (role, existing (de)compressor, the four parameters): a fresh raw-deflate object with window -<W> is created exactly when
+    # none exists or the governing no_context_takeover flag is set; W and the flag are those of the direction being (de)compressed
+    from ..core.tiny import Tiny, Sym
+    import itertools
+    for fname, ctor, attr, own_when_server in (("start_compress_message", "zlib.compressobj", "_compressor", "server"),
+                                               ("start_decompress_message", "zlib.decompressobj", "_decompressor", "client")):
         fn = pm.methods[fname]
         ctx.analysed(fn)
-        g, mf, res = an.get(fn)
-        sites = [(n, c) for n in g.stmt_nodes() for c in node_calls(n) if call_name(c) == ctor]
-        ctx.require(len(sites) == 2, f"{fname}: expected two {ctor} sites")
-        for n, c in sites:
-            srv = norm.is_truthy_known(mf.at(n), "self._is_server")
-            ctx.require(srv is not None, f"{fname}: {ctor} not under an _is_server test")
-            other = "client" if own_when_server == "server" else "server"
-            role = own_when_server if srv else other
-            wb = [a for a in c.args if isinstance(a, ast.UnaryOp) and isinstance(a.op, ast.USub)]
-            ok = len(wb) == 1 and norm.text(wb[0].operand) == f"self.{role}_max_window_bits"
-            ctx.ob(f"{fname} (is_server={srv}): raw deflate window is -{role}_max_window_bits", ok,
-                   f"window argument {[norm.text(a) for a in c.args]} (must negate self.{role}_max_window_bits)", fn.loc(c))
-            facts = mf.at(n)
-            anyf = [f for f in facts if f[0] == "any"]
-            opp = "client" if role == "server" else "server"
-            okc = any(f"self.{role}_no_context_takeover" in norm.mentions(f) for f in anyf) and \
-                not any(f"self.{opp}_no_context_takeover" in norm.mentions(f) for f in anyf)
-            ctx.ob(f"{fname} (is_server={srv}): context reset governed by {role}_no_context_takeover", okc,
-                   "(de)compressor re-created under the other direction's no_context_takeover flag", fn.loc(c))
+        body = [x for x in fn.node.body if not (isinstance(x, ast.Expr) and isinstance(x.value, ast.Constant))]
+        problems = []
+        try:
+            for is_server, existing, s_nct, c_nct in itertools.product((True, False), (None, "old"), (True, False), (True, False)):
+                old = Sym("existing") if existing else None
+                made = []
+
+                def default(f_, a_, k_=None):
+                    if f_ == ctor:
+                        made.append((list(a_), dict(k_ or {})))
+                        return Sym("fresh")
+                    return Sym(f"<{f_}>")
+                env = {"self._is_server": is_server, f"self.{attr}": old, "self.server_no_context_takeover": s_nct, "self.client_no_context_takeover": c_nct,
+                       "self.server_max_window_bits": 12, "self.client_max_window_bits": 10, "self.mem_level": 8, "self._decompressed_len": 0, "self._oversized": False,
+                       "zlib.Z_DEFAULT_COMPRESSION": -1, "zlib.DEFLATED": 8}
+                t = Tiny(env, default_call=default)
+                t.run(body)
+                role = own_when_server if is_server else ("client" if own_when_server == "server" else "server")
+                flag = s_nct if role == "server" else c_nct
+                w = 12 if role == "server" else 10
+                want_new = existing is None or flag
+                cell = f"is_server={is_server}, existing={'yes' if existing else 'no'}, server_nct={s_nct}, client_nct={c_nct}"
+                if (len(made) == 1) != want_new or len(made) > 1:
+                    problems.append(f"{cell}: {'no ' if not made else ''}new object created, expected {'a new one' if want_new else 'the existing context to be kept'} "
+                                    f"(governed by {role}_no_context_takeover)")
+                elif made:
+                    a_, k_ = made[0]
+                    wb = k_.get("wbits", a_[2] if ctor.endswith(".compressobj") and len(a_) > 2 else (a_[0] if a_ and not ctor.endswith(".compressobj") else None))
+                    if wb != -w:
+                        problems.append(f"{cell}: window argument {wb}, expected -{role}_max_window_bits = {-w}")
+                    if t.env.get(f"self.{attr}") is old:
+                        problems.append(f"{cell}: the new object is not stored in self.{attr}")
+            ctx.ob(f"{fname}: raw-deflate window and context reset follow the parameters of the direction being processed [32 cells]", not problems,
+                   "; ".join(problems[:2]), fn.loc())
+        except AnalysisError as e:
+            raise AnalysisError(f"[C12.3-role-mapping] {fname} outside the modelled subset: {e}")
     # __init__: attribute X from parameter X
     init = pm.methods["__init__"]
     for p in ("server_no_context_takeover", "client_no_context_takeover", "server_max_window_bits", "client_max_window_bits"):
@@ -269,6 +291,17 @@ def rule_role_mapping(ctx):
             a = c.args[i] if i < len(c.args) else None
             got = set()
             if a is not None:
+                # through locals: every assignment of a local that feeds the argument contributes its reads
+                from ..core.flow import local_assignments
+                exprs, seen, todo = [], set(), [a]
+                while todo:
+                    e_ = todo.pop()
+                    exprs.append(e_)
+                    for y in ast.walk(e_):
+                        if isinstance(y, ast.Name) and isinstance(y.ctx, ast.Load) and y.id not in seen and y.id not in ("accept", "is_server", "cls"):
+                            seen.add(y.id)
+                            todo.extend(v for v in local_assignments(fn, y.id) if v is not None)
+                a = ast.Tuple(elts=exprs, ctx=ast.Load())
                 for x in ast.walk(a):
                     if isinstance(x, ast.Attribute) and isinstance(x.ctx, ast.Load):
                         t = norm.text(x)
